@@ -130,26 +130,29 @@ def callbacks(ctx, f, g, cfg):
         # the locks the read-only function itself takes (drop glue of the values it returns is the caller's business)
         ro_locks[b.path] = {(a["cls"], a["mode"], a["waits"]) for a in g.lm.analyse(b)["acq"]}
     seen_sites = 0
-    reported = set()
+    reported = {}
     for s in g.ext_sites:
         held = {h["cls"]: h for h in s["held"]}
         shared = {c: h for c, h in held.items() if c.startswith("static:") or c == "inst:State"}
         if not shared:
             continue
         seen_sites += 1
-        for rp, locks in sorted(ro_locks.items()):
-            for (cls, mode, waits) in sorted(locks):
-                if cls in shared and waits:
-                    hm = shared[cls]["mode"]
-                    key = "C15.callback|%s|%s|%s" % (s["ext"], cls, rp.replace("core::", "", 1))
-                    if key in reported:
-                        continue
-                    reported.add(key)
-                    chain = s["chain"] or ([s["body"].path.replace("core::", "", 1) + " (holding %s; call at %s)" % (cls, s["body"].loc(s["bb"]))] + g.why(s["via"], s["item"]))
-                    ctx.violation("C15.callback", key,
-                                  "user callback `%s` runs with %s held (%s); if it calls %s, which takes %s (%s), the thread blocks on itself" % (
-                                      s["ext"], cls, hm, rp.replace("core::", "", 1), cls, mode),
-                                  s["body"].loc(s["bb"]), chain, config=cfg)
+        holder = s["body"].path.replace("core::", "", 1)
+        for cls in sorted(shared):
+            blockers = sorted(rp.replace("core::", "", 1) for rp, locks in ro_locks.items() if any(c == cls and waits for (c, mode, waits) in locks))
+            if not blockers:
+                continue
+            # one finding per (callback, lock, function that holds the lock across the callback)
+            key = "C15.callback|%s|%s|%s" % (s["ext"], cls, holder)
+            if key in reported:
+                continue
+            reported[key] = blockers
+            hm = shared[cls]["mode"]
+            chain = s["chain"] or ([holder + " (holding %s; call at %s)" % (cls, s["body"].loc(s["bb"]))] + g.why(s["via"], s["item"]))
+            ctx.violation("C15.callback", key,
+                          "user callback `%s` runs with %s held (%s) by %s; if it calls %s, which take%s that lock, the thread blocks on itself" % (
+                              s["ext"], cls, hm, holder, ", ".join(blockers), "s" if len(blockers) == 1 else ""),
+                          s["body"].loc(s["bb"]), chain, config=cfg)
     ctx.instance("C15.callback", "callback sites under shared locks [%s]" % cfg, {"sites": seen_sites, "findings": len(reported)}, "0 findings", not reported, cfg)
 
 
